@@ -80,7 +80,11 @@ impl Vm {
     ) -> ParseResult<Box<ParserState<'a, &'a str>>> {
         if let Some(ref listener) = self.listener {
             if listener(rule.to_owned(), state.position()) {
-                return Err(ParserState::new(state.position().line_of()));
+                // The rule fails. (Failing with a *fresh* state instead, over a different input,
+                // corrupts the parse as soon as an optional, a repetition, a choice or a negative
+                // predicate turns this failure into a success: the enclosing rules then index a
+                // token queue that no longer holds their start tokens.)
+                return Err(state);
             }
         }
         // Only names the grammar does not define are built-ins (as in the generated parser):
